@@ -1,12 +1,264 @@
-"""C11: structural clauses (see DESIGN.md section 4)."""
+"""C11 transcript files: path/file re-dispatch (G6), order-preserving parallel reader (G11/G13),
+ctm field order across writer/reader (G2), seconds<->frames unit kinds (G14), tier bounds (G12)."""
 from __future__ import annotations
 
+import ast
+from typing import Dict, Optional
+
 from rules import fwd as R_fwd
+from sa.astutil import call_name, guards_of, parent_map, u
+from sa.defuse import ReachingDefs
+from sa.model import AnalysisError, own_calls, own_nodes
+from sa.resolve import norm_name
 from .common import Ctx, plumbing
+
+MOD = "_parsing"
+REDISPATCH = {"read_trn_iter", "read_trn", "write_trn", "read_ctm", "write_ctm", "read_textgrid", "write_textgrid"}
+
+Unit = Dict[str, int]
+
+
+def _umul(a: Unit, b: Unit, sign: int = 1) -> Unit:
+    out = dict(a)
+    for k, v in b.items():
+        out[k] = out.get(k, 0) + sign * v
+    return {k: v for k, v in out.items() if v}
+
+
+class UnitError(Exception):
+    pass
+
+
+def unit_of(e: ast.AST, env: Dict[str, Unit]) -> Optional[Unit]:
+    """Unit of an arithmetic expression; None = dimensionless literal (adopts any unit in +/-)."""
+    if isinstance(e, ast.Constant) and isinstance(e.value, (int, float)):
+        if e.value == 1000:
+            return {"ms": 1, "s": -1}
+        return None
+    if isinstance(e, ast.Name):
+        if e.id in env:
+            return env[e.id]
+        raise UnitError(f"unknown quantity `{e.id}`")
+    if isinstance(e, ast.BinOp):
+        if isinstance(e.op, (ast.Mult,)):
+            a, b = unit_of(e.left, env), unit_of(e.right, env)
+            # a bare count times ms/frame is a number of frames expressed in ms
+            if a is None and b == {"ms": 1, "frame": -1}:
+                return {"ms": 1}
+            if b is None and a == {"ms": 1, "frame": -1}:
+                return {"ms": 1}
+            return _umul(a or {}, b or {})
+        if isinstance(e.op, (ast.Div, ast.FloorDiv)):
+            a, b = unit_of(e.left, env), unit_of(e.right, env)
+            return _umul(a or {}, b or {}, -1)
+        if isinstance(e.op, (ast.Add, ast.Sub)):
+            a, b = unit_of(e.left, env), unit_of(e.right, env)
+            if a is None:
+                return b
+            if b is None:
+                return a
+            if a != b:
+                raise UnitError(f"`{u(e)}` adds {a} and {b}")
+            return a
+    if isinstance(e, ast.Call) and call_name(e) in ("max", "min", "int", "round", "float"):
+        us = [unit_of(a, env) for a in e.args]
+        known = [x for x in us if x is not None]
+        if known and any(x != known[0] for x in known):
+            raise UnitError(f"`{u(e)}` compares different units {known}")
+        return known[0] if known else None
+    raise UnitError(f"unsupported expression `{u(e)}`")
 
 
 def run(ctx: Ctx):
-    plumbing(ctx, 'S1')
-    R_fwd.g6_redispatch(ctx.pkg, ctx.res, ctx.col, clause='S1', only={'read_trn_iter','read_trn','write_trn','read_ctm','write_ctm','read_textgrid','write_textgrid'})
-    ctx.col.floor('g6_redispatch_sites', ctx.col.counts.get('g6_redispatch_sites', 0), 6)
-    return dict(explanation='plumbing clauses only (work in progress)', decided=['S1'], not_decided=[])
+    col, pkg, res = ctx.col, ctx.pkg, ctx.res
+    rel = pkg.module(MOD).relname
+
+    # ---- S1 path or file: same output under every option --------------------------------------------
+    R_fwd.g6_redispatch(pkg, res, col, clause="S1", only=REDISPATCH)
+    col.floor("g6_redispatch_sites", col.counts.get("g6_redispatch_sites", 0), 6)
+    # read_trn -> read_trn_iter forwards everything
+    R_fwd.g5_delegation(pkg, res, col, [f"{MOD}::read_trn"], {"read_trn_iter"}, clause="S1")
+
+    # ---- S2 one worker or many: same list ---------------------------------------------------------------
+    it = pkg.func(f"{MOD}::read_trn_iter")
+    where = f"{rel}::read_trn_iter"
+    pools = [c for c in own_calls(it.node) if isinstance(c.func, ast.Attribute) and c.func.attr in (
+        "imap", "imap_unordered", "map", "map_async", "starmap", "apply_async")]
+    col.floor("trn_pool_calls", len(pools), 1)
+    for c in pools:
+        col.ob("G11", "S2", f"{where}::pool.{c.func.attr}::order-preserving", c.func.attr in ("imap", "map", "starmap"),
+               f"the parallel reader collects results with pool.{c.func.attr}: transcripts come back in completion "
+               f"order, so reading with several workers yields a differently ordered list", rel, c.lineno, sample=u(c)[:100])
+    serial_worker = parallel_worker = None
+    serial_arg = parallel_arg = None
+    for c in own_calls(it.node):
+        if call_name(c) == "_trn_line_to_transcript" and c.args:
+            serial_worker, serial_arg = "_trn_line_to_transcript", u(c.args[0])
+    for c in pools:
+        if c.args:
+            parallel_worker = u(c.args[0])
+            a = c.args[1] if len(c.args) > 1 else None
+            if isinstance(a, ast.GeneratorExp):
+                parallel_arg = u(a.elt)
+    col.ob("G13", "S2", f"{where}::serial-and-parallel-apply-the-same-worker",
+           serial_worker == parallel_worker and serial_arg == parallel_arg,
+           f"serial branch applies {serial_worker}({serial_arg}), parallel branch {parallel_worker}({parallel_arg})",
+           rel, it.line, sample=dict(serial=(serial_worker, serial_arg), parallel=(parallel_worker, parallel_arg)))
+    # both branches drop None results and nothing else
+    pm = parent_map(it.node)
+    filt = [u(n.test) for n in own_nodes(it.node) if isinstance(n, ast.If) and any(
+        isinstance(s, ast.Expr) and isinstance(s.value, ast.Yield) for s in n.body)]
+    col.ob("G13", "S2", f"{where}::same-filter-in-both-branches", len(filt) == 2 and len(set(filt)) == 1 and filt[0].endswith("is not None"),
+           f"the serial and parallel branches filter results by {filt}", rel, it.line, sample=filt)
+
+    # ---- S3 ctm field order: writer tuple == reader unpack ---------------------------------------------------
+    wr = pkg.func(f"{MOD}::write_ctm")
+    rdc = pkg.func(f"{MOD}::read_ctm")
+    written = None
+    for c in own_calls(wr.node):
+        if isinstance(c.func, ast.Attribute) and c.func.attr == "append" and c.args and isinstance(c.args[0], ast.Tuple) \
+                and len(c.args[0].elts) == 5:
+            written = [u(x) for x in c.args[0].elts]
+    read = None
+    for n in own_nodes(rdc.node):
+        if isinstance(n, ast.Assign) and isinstance(n.targets[0], ast.Tuple) and len(n.targets[0].elts) == 5 \
+                and isinstance(n.value, ast.Subscript):
+            read = [u(x) for x in n.targets[0].elts]
+    if written is None or read is None:
+        raise AnalysisError("C11: ctm writer tuple / reader unpack not found")
+
+    def same(a, b):
+        a, b = norm_name(a), norm_name(b)
+        return a == b or a in b or b in a
+    ok = all(same(a, b) for a, b in zip(written, read))
+    col.ob("G2", "S3", f"{rel}::ctm::field-order(writer==reader)", ok,
+           f"write_ctm emits fields {written}; read_ctm unpacks {read}", rel, wr.line, sample=dict(written=written, read=read))
+    fmt = [c for c in own_calls(wr.node) if isinstance(c.func, ast.Attribute) and c.func.attr == "format"
+           and isinstance(c.func.value, ast.Constant) and c.func.value.value.count("{}") == 5]
+    col.ob("G2", "S3", f"{rel}::write_ctm::five-fields-in-tuple-order", len(fmt) == 1 and len(fmt[0].args) == 1
+           and isinstance(fmt[0].args[0], ast.Starred), "the ctm line is not formatted from the 5-tuple in order", rel, wr.line)
+    # duration <-> end are inverse: writer duration = end - start; reader end = start + float(dur)
+    wdur = [n for n in own_nodes(wr.node) if isinstance(n, ast.Assign) and u(n.targets[0]) == written[3]]
+    rend = [n for n in own_nodes(rdc.node) if isinstance(n, ast.Assign) and u(n.targets[0]) == "end"]
+    okd = len(wdur) == 1 and u(wdur[0].value) == "end - start" and len(rend) == 1 and u(rend[0].value).replace("float(", "").replace(")", "") == f"start + {read[3]}"
+    col.ob("G12", "S3", f"{rel}::ctm::duration-end-inverse", okd,
+           f"writer: {u(wdur[0]) if wdur else None}; reader: {u(rend[0]) if rend else None}; expected duration = end - "
+           f"start and end = start + duration", rel, wr.line)
+    # mapping orientation
+    okm = any("utt2wc[utt_id]" in u(n) for n in own_nodes(wr.node) if isinstance(n, ast.Assign)) and any(
+        u(n.value) == f"wc2utt[{read[0]}, {read[1]}]" or u(n.value) == f"wc2utt[({read[0]}, {read[1]})]"
+        for n in own_nodes(rdc.node) if isinstance(n, ast.Assign))
+    col.ob("G2", "S3", f"{rel}::ctm::utt2wc/wc2utt-orientation", okm,
+           "writer must map utt_id -> (wfn, chan) and reader (wfn, chan) -> utt_id", rel, rdc.line)
+    # mandated ordering: segments sorted before writing; reader sorts tokens by start
+    oks = any(isinstance(n, ast.Assign) and call_name(n.value) == "sorted" and u(n.value.args[0]) == u(n.targets[0])
+              for n in own_nodes(wr.node) if isinstance(n, ast.Assign) and isinstance(n.value, ast.Call))
+    col.ob("G13", "S3", f"{rel}::write_ctm::sorted-segments", oks, "ctm segments are not sorted before writing", rel, wr.line)
+
+    # ---- S4 seconds <-> frames unit kinds ------------------------------------------------------------------------
+    t2t = pkg.func(f"{MOD}::transcript_to_token")
+    k2t = pkg.func(f"{MOD}::token_to_transcript")
+    FS = {"ms": 1, "frame": -1}
+    n_units = 0
+    for f, src, dst in ((t2t, {"s": 1}, {"frame": 1}), (k2t, {"frame": 1}, {"s": 1})):
+        pmf = parent_map(f.node)
+        for n in own_nodes(f.node):
+            if not isinstance(n, ast.Assign):
+                continue
+            tg = n.targets
+            names = [t.id for t in tg if isinstance(t, ast.Name)]
+            if not names or not all(x in ("start", "end") for x in names):
+                continue
+            if not any("frame_shift_ms" in u(t) and pol for t, pol in guards_of(pmf, n)):
+                continue
+            if "frame_shift_ms" not in u(n.value) and "start" not in u(n.value):
+                continue
+            n_units += 1
+            env = {"start": src, "end": src, "frame_shift_ms": FS}
+            # `end = max(end, start + 1)`: both already converted
+            if isinstance(n.value, ast.Call) and call_name(n.value) == "max":
+                env = {"start": dst, "end": dst, "frame_shift_ms": FS}
+            try:
+                got = unit_of(n.value, env)
+                ok = got == dst
+                msg = f"`{u(n)}` has unit {got}, expected {dst}"
+            except UnitError as e:
+                ok, msg = False, f"`{u(n)}`: {e}"
+            col.ob("G14", "S4", f"{rel}::{f.qualname}::units({'/'.join(names)}={u(n.value)[:40]})", ok,
+                   msg + " (seconds -> frames is 1000 * t // frame_shift_ms; frames -> seconds is f * frame_shift_ms / 1000)",
+                   rel, n.lineno, sample=u(n))
+    col.floor("unit_conversion_sites", n_units, 5)
+    # rounding: start floors, end rounds half up, and a non-empty segment keeps at least one frame
+    txt = [u(n) for n in own_nodes(t2t.node) if isinstance(n, ast.Assign)]
+    col.ob("G12", "S4", f"{rel}::transcript_to_token::end>=start+1", "end = max(end, start + 1)" in txt,
+           "a non-empty segment may collapse to zero frames (end = max(end, start + 1) missing)", rel, t2t.line)
+
+    # ---- S5 tier bounds come from one object ----------------------------------------------------------------------
+    rt = pkg.func(f"{MOD}::read_textgrid")
+    mins = [n for n in own_nodes(rt.node) if isinstance(n, ast.Attribute) and n.attr == "xmin" and isinstance(n.ctx, ast.Load)]
+    maxs = [n for n in own_nodes(rt.node) if isinstance(n, ast.Attribute) and n.attr == "xmax" and isinstance(n.ctx, ast.Load)]
+    owners = {u(n.value) for n in mins + maxs}
+    col.ob("G12", "S5", f"{rel}::read_textgrid::bounds-from-one-object", len(owners) == 1 and bool(mins) and bool(maxs),
+           f"start/end bounds used for gap filling and returned are read from {sorted(owners)}; they must come from "
+           f"the selected tier alone (file-level bounds may differ from the tier's)", rel, rt.line, sample=sorted(owners))
+    rets = [n for n in own_nodes(rt.node) if isinstance(n, ast.Return) and isinstance(n.value, ast.Tuple) and len(n.value.elts) == 3]
+    okr = bool(rets) and all(u(r.value.elts[1]).endswith(".xmin") and u(r.value.elts[2]).endswith(".xmax") for r in rets)
+    col.ob("G2", "S5", f"{rel}::read_textgrid::returns(transcript, xmin, xmax)", okr,
+           f"read_textgrid returns {[u(r.value) for r in rets]}", rel, rt.line)
+    plumbing(ctx, "S1")
+    return dict(
+        explanation=(
+            "Decides for C11: (S1) every path-accepting entry point forwards every option to the file-accepting one "
+            "and opens with the right mode [precision forwarding repaired; point_tier is known finding F1a]; (S2) the "
+            "parallel trn reader uses an order-preserving pool method, applies the same worker to the same (line, "
+            "warn) pairs and filters None identically; (S3) the ctm field order, duration/end inversion and mapping "
+            "orientation agree between writer and reader, segments are sorted before writing; (S4) seconds<->frames "
+            "conversions are well-kinded in the unit algebra {s, ms, frame}; (S5) TextGrid tier bounds come from the "
+            "selected tier alone. NOT decided: round-trip equality of the trn tokenizer/alternates writer, the regex-"
+            "based TextGrid reader against the writer's format, print precision."),
+        decided=["S1", "S2", "S3", "S4", "S5"],
+        not_decided=["trn alternates round trip", "TextGrid writer format vs reader regexes", "precision round trip"],
+        assumptions=["multiprocessing.Pool.imap preserves input order"],
+    )
+
+
+def _mutants():
+    from selftest.mutate import Mutant as M
+    P = "_parsing.py"
+    return [
+        M("imap-unordered", P, "transcripts = pool.imap(_trn_line_to_transcript", "transcripts = pool.imap_unordered(_trn_line_to_transcript", "order-preserving"),
+        M("parallel-ignores-warn", P, "((line, warn) for line in trn), chunk_size)", "((line, False) for line in trn), chunk_size)", "serial-and-parallel"),
+        M("write-ctm-drops-utt2wc", P, "return write_ctm(transcripts, ctm, utt2wc)", "return write_ctm(transcripts, ctm)", "redispatch(utt2wc)"),
+        M("read-ctm-drops-wc2utt", P, "return read_ctm(ctm, wc2utt)", "return read_ctm(ctm)", "redispatch(wc2utt)"),
+        M("write-trn-mode-a", P, "with open(trn, 'w') as trn:", "with open(trn, 'a') as trn:", "open-mode"),
+        M("read-textgrid-drops-fill", P, "return read_textgrid(f, tier_id, fill_token)", "return read_textgrid(f, tier_id)", "redispatch(fill_token)"),
+        M("ctm-fields-swapped", P, "segments.append((wfn, chan, start, duration, token))", "segments.append((wfn, chan, duration, start, token))", "field-order"),
+        M("ctm-reader-end-is-dur", P, "end = start + float(dur)", "end = float(dur)", "duration-end-inverse"),
+        M("frames-to-seconds-inverted", P, "start = start * frame_shift_ms / 1000", "start = start * 1000 / frame_shift_ms", "units(start"),
+        M("seconds-to-frames-no-1000", P, "start = 1000 * start // frame_shift_ms\n                        end = (1000", "start = start // frame_shift_ms\n                        end = (1000", "units(start"),
+        M("rounding-term-unitless", P, "end = (1000 * end + 0.5 * frame_shift_ms) // frame_shift_ms", "end = (1000 * end + 0.5 / frame_shift_ms) // frame_shift_ms", "units(end"),
+        M("textgrid-file-xmin", P, "start_time = tier.xmin", "start_time = tg_.xmin", "bounds-from-one-object"),
+        M("read-trn-drops-processes", P, "read_trn_iter(trn, warn, processes, chunk_size)", "read_trn_iter(trn, warn)", "G5/S1"),
+        M("twin:rename-line", P, "for line in trn", "for ln in trn", "", 0, twin=True),
+    ]
+
+
+def selftest(ctx: Ctx):
+    from selftest.mutate import run_selftest
+    return run_selftest("C11", ctx.pkg.repo, _mutants(), floor=10)
+
+
+MANIFEST = dict(
+    level_text=(
+        "Static analysis (no execution) of the transcript readers/writers: forwarding on every path-or-file re-"
+        "dispatch site, order preservation and branch agreement of the multi-process trn reader (schedule "
+        "independence is decided from which pool method collects the results), writer/reader agreement of the ctm "
+        "record layout, a unit-kind check of the seconds<->frames conversions, and single-object provenance of the "
+        "TextGrid tier bounds. Necessary conditions of 'path or open file byte-identical', 'one worker or many the "
+        "same list' and 'times recovered to within one frame shift'; round-trip equality of the trn/TextGrid "
+        "grammars is a language-inclusion question that is not decided."),
+    level_note="Trusted: python ast; Pool.imap order preservation. Known finding F1a: write_textgrid's path entry point "
+               "ignores point_tier (a stable baseline test encodes the dropped option).",
+    technique="static analysis: forwarding completeness on re-dispatch sites, effect/order analysis of pool methods, unit-kind checking, writer/reader table agreement",
+    design_ref="DESIGN.md section 4 C11",
+)
